@@ -65,7 +65,7 @@ def parseRev (s : String) : Option Rev :=
 
 def errName : Err → String
   | .dupKey => "dup-key" | .noTable => "no-table" | .nothingToCommit => "nothing-to-commit"
-  | .conflict => "conflict" | .dirty => "dirty" | .badRef => "bad-ref" | .exists_ => "exists" | .other => "other"
+  | .conflict => "conflict" | .schemaConflict => "schema-conflict" | .dirty => "dirty" | .badRef => "bad-ref" | .exists_ => "exists" | .other => "other"
 
 def showRes : Res → String
   | .ok => "ok"
